@@ -15,7 +15,7 @@ class Unsupported(Exception):
 
 
 INT_W = {"u8": 8, "u16": 16, "u32": 32, "u64": 64, "u128": 128, "usize": 64,
-         "i8": 8, "i16": 16, "i32": 32, "i64": 64, "i128": 128, "isize": 64}
+         "i8": 8, "i16": 16, "i32": 32, "i64": 64, "i128": 128, "isize": 64, "char": 32}
 SIGNED = {"i8", "i16", "i32", "i64", "i128", "isize"}
 
 
@@ -334,6 +334,7 @@ class Path:
         self.asserts = []  # (cond_term, msg) of MIR assert terminators passed (overflow / bounds checks)
         self.heap = {}     # name of an opaque pointer-like aggregate -> Cell of its abstract pointee (shared by copies)
         self.side = []     # (pc prefix, cond, msg): a modelled call panics here unless cond; cond was added to pc
+        self.stopped = None  # region exploration: the stop block this path ended in
 
 
 _FRAME_UID = [0]
@@ -510,6 +511,19 @@ class Executor:
             v = int(m.group(1).replace("_", ""))
             ty = m.group(2)
             return Leaf(bvconst(v, INT_W[ty]), ty)
+        m = re.match(r"^'(\\.|\\u\{[0-9a-fA-F]+\}|[^'\\])'$", t)
+        if m:
+            body = m.group(1)
+            esc = {"\\n": "\n", "\\t": "\t", "\\r": "\r", "\\0": "\0", "\\\\": "\\", "\\'": "'", '\\"': '"'}
+            if body.startswith("\\u{"):
+                cp = int(body[3:-1], 16)
+            elif body in esc:
+                cp = ord(esc[body])
+            elif len(body) == 1:
+                cp = ord(body)
+            else:
+                raise Unsupported("char literal " + t)
+            return Leaf(bvconst(cp, 32), "char")
         m = re.match(r"^(-?\d[\d_]*)$", t)
         if m and hint_ty in INT_W:
             return Leaf(bvconst(int(t.replace("_", "")), INT_W[hint_ty]), hint_ty)
@@ -820,14 +834,19 @@ class Executor:
                 self.havoc(old, depth + 1)
 
     # ---- main loop -------------------------------------------------------------------------------------------------------
-    def run(self, func, args):
-        """explore every path through func from the given argument values; returns list of (Path, return value|None)"""
+    def run(self, func, args, start_bb="bb0", stop_bbs=()):
+        """explore every path through func from the given argument values; returns list of (Path, return value|None).
+        start_bb / stop_bbs: explore only a region of the body (one loop iteration from an arbitrary state): execution
+        starts at start_bb with every local it reads before writing symbolic, and a path that enters one of stop_bbs
+        ends there with `path.stopped = bb` (return value None)."""
         f0 = Frame(func)
         if len(args) != len(func.params):
             raise Unsupported(f"arity mismatch calling {func.name}: {len(args)} vs {len(func.params)}")
         for (pn, pt), a in zip(func.params, args):
             f0.cells[pn] = Cell(a)
-        work = [State(Path(), [f0], "bb0")]
+        work = [State(Path(), [f0], start_bb)]
+        self._stop_bbs = set(stop_bbs)
+        self._start_bb = start_bb
         results = []
         steps = 0
         while work:
@@ -840,6 +859,11 @@ class Executor:
                     raise Unsupported("step budget exceeded")
                 frame = st.frames[-1]
                 k = (frame.uid, st.bb)
+                if len(st.frames) == 1 and st.bb in self._stop_bbs and st.path.visits:
+                    st.path.stopped = st.bb
+                    st.path.final_frame = frame
+                    results.append((st.path, None))
+                    break
                 st.path.visits[k] = st.path.visits.get(k, 0) + 1
                 if st.path.visits[k] > self.loop_bound + 1:
                     st.path.cut = f"loop bound {self.loop_bound} exceeded at {frame.func.name.split('::')[-1]}:{st.bb}"
